@@ -183,7 +183,17 @@ class RuleTable:
     def _literal_elts(self, m, it, env):
         it = subst(it, env)
         if isinstance(it, (ast.List, ast.Tuple)):
-            return list(it.elts)
+            out = []
+            for e_ in it.elts:
+                if isinstance(e_, ast.Starred):
+                    # (*A, *B, c): the elements of the starred sequences in place
+                    sub_ = self._literal_elts(m, e_.value, env)
+                    if sub_ is None:
+                        return None
+                    out.extend(sub_)
+                else:
+                    out.append(e_)
+            return out
         if isinstance(it, ast.BinOp) and isinstance(it.op, ast.Add):
             a = self._literal_elts(m, it.left, env)
             b = self._literal_elts(m, it.right, env)
